@@ -46,22 +46,39 @@ ANNOTS = ["int", "str", "bool", "float", "list[int]", "dict[str, int]", "int | N
 SIMPLE_ANNOTS = ["int", "str", "bool", "float", "bytes", "complex", "list[int]", "dict[str, int]", "Foo", "a.B"]
 EXCEPTIONS = ["ValueError", "KeyError", "my_exceptions.MyError", "OSError", "RuntimeError", "CustomWarning", "UserWarning"]
 DEFAULTS = ["1", "None", "'x'", "3.5", "True", "()", "[1, 2]"]
+# characters at which str.splitlines() cuts but "\n".split does not (a docstring line ends at "\n" only)
+LINE_BOUNDARY_ASCII = ["\x0b", "\x0c", "\x1c", "\x1d", "\x1e", "\r"]
+LINE_BOUNDARY_CHARS = LINE_BOUNDARY_ASCII + ["\x85", "\u2028", "\u2029"]
+NON_ASCII_LETTERS = ["\u00e9", "\u00df", "\u03bb", "\u6570", "\u00a0", "\u2014"]
 WORDS = ["alpha", "beta", "gamma", "delta", "value", "the", "of", "when", "result", "item", "number", "path", "flag", "mode"]
 
 
 class Gen:
     """Seeded generator of documented structures. Every name / prose word carries a serial number, so content is distinct."""
 
-    def __init__(self, rng):
+    def __init__(self, rng, exotic: float = 0.0, ascii_only: bool = False):
         self.rng = rng
         self.n = 0
+        self.exotic = exotic            # probability that a prose word carries a character outside printable ASCII
+        self.ascii_only = ascii_only
 
     def uid(self) -> int:
         self.n += 1
         return self.n
 
     def word(self) -> str:
-        return f"{self.rng.choice(WORDS)}{self.uid()}"
+        w = f"{self.rng.choice(WORDS)}{self.uid()}"
+        if self.exotic and self.rng.random() < self.exotic:
+            # prose is arbitrary text: control characters that str.splitlines (but not split("\n")) treats as line
+            # boundaries, a lone carriage return, non-ASCII letters.  Placed INSIDE the word, so no strip() can touch it.
+            r = self.rng.random()
+            if r < 0.75 or self.ascii_only:
+                ch = self.rng.choice(LINE_BOUNDARY_ASCII if self.ascii_only else LINE_BOUNDARY_CHARS)
+            else:
+                ch = self.rng.choice(NON_ASCII_LETTERS)
+            i = self.rng.randint(1, len(w) - 1)
+            w = w[:i] + ch + w[i:]
+        return w
 
     def ident(self, prefix="n") -> str:
         return f"{prefix}{self.uid()}"
@@ -393,6 +410,9 @@ def gen_section(g: Gen, style: str, kind: str, parent: dict, opts: dict, used: s
             it["just_name_form"] = rng.choice(["bare", "colon"])
             it["default_form"] = rng.choice([" ", ": ", "="])
         items.append(it)
+    for it in items[:-1]:
+        # items may be set apart by blank lines (both styles allow it); they belong to no description
+        it["sep"] = rng.choice([0, 0, 0, 0, 0, 1, 1, 2])
     return {"k": kind, "header": header, "title": title, "items": items, "single": single, "named": named}
 
 
@@ -501,6 +521,7 @@ def render_google(doc: dict) -> list[str]:
                 out.append(sp + (first if head is None else _colon_first(head, first)))
                 csp = sp if sec["single"] else sp2
                 out += [csp + l if l else "" for l in it["desc"][1:]]
+                out += [""] * it.get("sep", 0)
     return out
 
 
@@ -550,6 +571,7 @@ def render_numpy(doc: dict) -> list[str]:
             for it in sec["items"]:
                 out.append(numpy_item_head(k, it))
                 out += ["    " + l if l else "" for l in it["desc"]]
+                out += [""] * it.get("sep", 0)
     return out
 
 
@@ -1098,6 +1120,8 @@ def wsecs_sexp(doc: dict):
                 return None
             items = []
             for it in sec["items"]:
+                if it.get("sep"):
+                    return None
                 ann = it["ann"]
                 if k in ("functions", "classes") and ann is not None:
                     ann = ann[len(it["name"]) + 1:-1]
